@@ -5,8 +5,9 @@ from pysym.harness import run_cases
 
 LEVEL = 'exploration'
 DEDUCTIVE = [('contracts.isoops', None)]          # (contract module, case-name filter) run by engine P
-FINISH = dict(rule='see checks/b07.py RULE / run.bound entries', explanation='bounded stand-in (engine B) of the contracts of DESIGN §2 C07; '
-              'labelled bounded, never counted as proved', trusted_base=['CPython 3.12', 'oracles/*', 'RDKit where stated'])
+FINISH = dict(rule='deductive: one obligation per path / table key; B: see run.bound entries of checks/b07.py',
+              explanation='P: comparison operators defined from mapping existence for all size pairs; B: mapping multisets against an exhaustive reference enumerator',
+              trusted_base=['CPython', 'z3', 'pysym', 'oracles/o07_ref.py'])
 replay = make_replay('C07')
 
 
